@@ -1,0 +1,381 @@
+//go:build verif
+
+package internal
+
+// Contracts for govc (contract-based deductive verification, see /verif/DESIGN.md).
+// Comments only; compiled only with the build tag `verif`.
+
+//@ arith mixed
+//@ property C08
+//
+// Integers: the platform int (counts, positions) is mathematical with overflow obligations; every sized
+// type (the bit words, the output element types, loop counters of sized type) is a bit-vector with Go's
+// exact wrap-around. Bit positions are passed to the spec functions as uint64.
+//
+//@ opaque pc(x uint64) int
+//@ pure pcdef(x uint64) int = bitsum(x)
+//@ pure lowmask(i uint64) uint64 = ite(i >= 64, ^uint64(0), (uint64(1) << i) - 1)
+//@ pure member(b Bit64, j uint64) bool = j < 64 && uint64(b) & (uint64(1) << j) != 0
+//@ pure rank(b Bit64, j uint64) int = pc(uint64(b) & lowmask(j))
+//@ pure rrank(b Bit64, j uint64) int = pc(uint64(b) & ^lowmask(j + 1))
+//@ pure nplus(n int) int = ite(n < 0, 0, n)
+//@ pure tabI() bool = forall i int :: { u64Tab[i] } 0 <= i && i < 64 ==> u64Tab[i] == Bit64(1) << uint64(i)
+//@ table u64Tab[i] = Bit64(1) << uint64(i) for 0 <= i && i < 64
+//
+//@ lemma pc_range(x uint64)
+//@   reveal pc = pcdef
+//@   auto pc(x)
+//@   ensures 0 <= pc(x) && pc(x) <= 64
+//@ lemma pc_zero(x uint64)
+//@   reveal pc = pcdef
+//@   ensures (x == 0) <==> (pc(x) == 0)
+//@ lemma pc_full(x uint64)
+//@   reveal pc = pcdef
+//@   ensures (x == ^uint64(0)) <==> (pc(x) == 64)
+//@ lemma pc_add(x uint64, i uint64)
+//@   reveal pc = pcdef
+//@   cases i in 0..63
+//@   requires i < 64 && x & (uint64(1) << i) == 0
+//@   ensures pc(x | (uint64(1) << i)) == pc(x) + 1
+//@ lemma pc_split(x uint64, i uint64)
+//@   reveal pc = pcdef
+//@   cases i in 0..64
+//@   requires i <= 64
+//@   ensures pc(x) == pc(x & lowmask(i)) + pc(x & ^lowmask(i))
+//
+//@ func init
+//@   ensures tabI()
+//@   modifies u64Tab, seq64Buf
+//@   loop 1
+//@     invariant i <= 64 && forall j int :: { u64Tab[j] } 0 <= j && j < int(i) ==> u64Tab[j] == Bit64(1) << uint64(j)
+//
+//@ func Bit64.Set
+//@   ensures #bit i <= 63 ==> deref(b) == old(deref(b)) | Bit64(1) << uint64(i)
+//@   ensures #ignored i > 63 ==> deref(b) == old(deref(b))
+//@   modifies deref(b)
+//
+//@ func Bit64.Unset
+//@   ensures #bit i <= 63 ==> deref(b) == old(deref(b)) & ^(Bit64(1) << uint64(i))
+//@   ensures #ignored i > 63 ==> deref(b) == old(deref(b))
+//@   modifies deref(b)
+//
+//@ func Bit64.Full
+//@   ensures result <==> b == ^Bit64(0)
+//@   modifies
+//@ func Bit64.Len
+//@   ensures result == pc(uint64(b))
+//@   modifies
+//@   use pc_full(uint64(b))
+//@ func Bit64.NLen
+//@   ensures result == 64 - pc(uint64(b))
+//@   modifies
+//@ func Bit64.Reverse
+//@   ensures result == ^b
+//@   modifies
+//@ func Bit64.And
+//@   ensures result == b & c
+//@   modifies
+//@ func Bit64.Or
+//@   ensures result == b | c
+//@   modifies
+//
+//
+//
+//
+//
+//
+//
+//
+//
+//
+// GENERATED BEGIN (by /verif/govc/schema/gen_bit64.py)
+//@ func Bit64.IterAsI64
+//@   requires 0 <= pos && pos <= len(s) && min(nplus(n), pc(uint64(b))) <= len(s) - pos
+//@   ensures #count result == min(nplus(n), pc(uint64(b)))
+//@   ensures #members(count,range) forall k int :: 0 <= k && k < result ==> member(b, uint64(s[pos+k]-add)) && rank(b, uint64(s[pos+k]-add)) == k
+//@   modifies s[pos : pos+min(nplus(n), pc(uint64(b)))]
+//@   loop 1
+//@     invariant #range 0 <= i && i <= 64 && uint64(w) == uint64(b) & ^lowmask(uint64(i)) && l == pc(uint64(b))
+//@     invariant #count c == rank(b, uint64(i)) && cursor == pos + c && 0 <= c && c <= nplus(n)
+//@     invariant #members(count,range) forall k int :: 0 <= k && k < c ==> member(b, uint64(s[pos+k]-add)) && rank(b, uint64(s[pos+k]-add)) == k
+//@     use [range,count] pc_add(uint64(b) & lowmask(uint64(i)), uint64(i)), pc_split(uint64(b), uint64(i)), pc_split(uint64(b), uint64(i)+1), pc_zero(uint64(b) & ^lowmask(uint64(i))), pc_zero(uint64(b) & ^lowmask(uint64(i)+1)), pc_zero(uint64(b) & lowmask(uint64(i)))
+//@     exit #count c == min(nplus(n), pc(uint64(b))) && cursor == pos + c
+//@     exit #members(count,range) forall k int :: 0 <= k && k < c ==> member(b, uint64(s[pos+k]-add)) && rank(b, uint64(s[pos+k]-add)) == k
+//@   loop 2
+//@     invariant #range uint64(w) == uint64(b) & ^lowmask(tzb(uint64(w))) && l == pc(uint64(b))
+//@     invariant #count c == rank(b, tzb(uint64(w))) && cursor == pos + c && 0 <= c && c <= nplus(n)
+//@     invariant #members(count,range) forall k int :: 0 <= k && k < c ==> member(b, uint64(s[pos+k]-add)) && rank(b, uint64(s[pos+k]-add)) == k
+//@     use [range,count] tz_def(uint64(w)), tz_def(uint64(w) & ^(uint64(1) << tzb(uint64(w)))), pc_add(uint64(b) & lowmask(tzb(uint64(w))), tzb(uint64(w))), pc_split(uint64(b), tzb(uint64(w))), pc_zero(uint64(w)), pc_zero(uint64(b) & lowmask(tzb(uint64(w))))
+//@     exit #count c == min(nplus(n), pc(uint64(b))) && cursor == pos + c
+//@     exit #members(count,range) forall k int :: 0 <= k && k < c ==> member(b, uint64(s[pos+k]-add)) && rank(b, uint64(s[pos+k]-add)) == k
+//
+//@ func Bit64.IterAsI32
+//@   requires 0 <= pos && pos <= len(s) && min(nplus(n), pc(uint64(b))) <= len(s) - pos
+//@   ensures #count result == min(nplus(n), pc(uint64(b)))
+//@   ensures #members(count,range) forall k int :: 0 <= k && k < result ==> member(b, uint64(s[pos+k]-add)) && rank(b, uint64(s[pos+k]-add)) == k
+//@   modifies s[pos : pos+min(nplus(n), pc(uint64(b)))]
+//@   loop 1
+//@     invariant #range 0 <= i && i <= 64 && uint64(w) == uint64(b) & ^lowmask(uint64(i)) && l == pc(uint64(b))
+//@     invariant #count c == rank(b, uint64(i)) && cursor == pos + c && 0 <= c && c <= nplus(n)
+//@     invariant #members(count,range) forall k int :: 0 <= k && k < c ==> member(b, uint64(s[pos+k]-add)) && rank(b, uint64(s[pos+k]-add)) == k
+//@     use [range,count] pc_add(uint64(b) & lowmask(uint64(i)), uint64(i)), pc_split(uint64(b), uint64(i)), pc_split(uint64(b), uint64(i)+1), pc_zero(uint64(b) & ^lowmask(uint64(i))), pc_zero(uint64(b) & ^lowmask(uint64(i)+1)), pc_zero(uint64(b) & lowmask(uint64(i)))
+//@     exit #count c == min(nplus(n), pc(uint64(b))) && cursor == pos + c
+//@     exit #members(count,range) forall k int :: 0 <= k && k < c ==> member(b, uint64(s[pos+k]-add)) && rank(b, uint64(s[pos+k]-add)) == k
+//@   loop 2
+//@     invariant #range uint64(w) == uint64(b) & ^lowmask(tzb(uint64(w))) && l == pc(uint64(b))
+//@     invariant #count c == rank(b, tzb(uint64(w))) && cursor == pos + c && 0 <= c && c <= nplus(n)
+//@     invariant #members(count,range) forall k int :: 0 <= k && k < c ==> member(b, uint64(s[pos+k]-add)) && rank(b, uint64(s[pos+k]-add)) == k
+//@     use [range,count] tz_def(uint64(w)), tz_def(uint64(w) & ^(uint64(1) << tzb(uint64(w)))), pc_add(uint64(b) & lowmask(tzb(uint64(w))), tzb(uint64(w))), pc_split(uint64(b), tzb(uint64(w))), pc_zero(uint64(w)), pc_zero(uint64(b) & lowmask(tzb(uint64(w))))
+//@     exit #count c == min(nplus(n), pc(uint64(b))) && cursor == pos + c
+//@     exit #members(count,range) forall k int :: 0 <= k && k < c ==> member(b, uint64(s[pos+k]-add)) && rank(b, uint64(s[pos+k]-add)) == k
+//
+//@ func Bit64.IterAsU32
+//@   requires 0 <= pos && pos <= len(s) && min(nplus(n), pc(uint64(b))) <= len(s) - pos
+//@   ensures #count result == min(nplus(n), pc(uint64(b)))
+//@   ensures #members(count,range) forall k int :: 0 <= k && k < result ==> member(b, uint64(s[pos+k]-add)) && rank(b, uint64(s[pos+k]-add)) == k
+//@   modifies s[pos : pos+min(nplus(n), pc(uint64(b)))]
+//@   loop 1
+//@     invariant #range 0 <= i && i <= 64 && uint64(w) == uint64(b) & ^lowmask(uint64(i)) && l == pc(uint64(b))
+//@     invariant #count c == rank(b, uint64(i)) && cursor == pos + c && 0 <= c && c <= nplus(n)
+//@     invariant #members(count,range) forall k int :: 0 <= k && k < c ==> member(b, uint64(s[pos+k]-add)) && rank(b, uint64(s[pos+k]-add)) == k
+//@     use [range,count] pc_add(uint64(b) & lowmask(uint64(i)), uint64(i)), pc_split(uint64(b), uint64(i)), pc_split(uint64(b), uint64(i)+1), pc_zero(uint64(b) & ^lowmask(uint64(i))), pc_zero(uint64(b) & ^lowmask(uint64(i)+1)), pc_zero(uint64(b) & lowmask(uint64(i)))
+//@     exit #count c == min(nplus(n), pc(uint64(b))) && cursor == pos + c
+//@     exit #members(count,range) forall k int :: 0 <= k && k < c ==> member(b, uint64(s[pos+k]-add)) && rank(b, uint64(s[pos+k]-add)) == k
+//@   loop 2
+//@     invariant #range uint64(w) == uint64(b) & ^lowmask(tzb(uint64(w))) && l == pc(uint64(b))
+//@     invariant #count c == rank(b, tzb(uint64(w))) && cursor == pos + c && 0 <= c && c <= nplus(n)
+//@     invariant #members(count,range) forall k int :: 0 <= k && k < c ==> member(b, uint64(s[pos+k]-add)) && rank(b, uint64(s[pos+k]-add)) == k
+//@     use [range,count] tz_def(uint64(w)), tz_def(uint64(w) & ^(uint64(1) << tzb(uint64(w)))), pc_add(uint64(b) & lowmask(tzb(uint64(w))), tzb(uint64(w))), pc_split(uint64(b), tzb(uint64(w))), pc_zero(uint64(w)), pc_zero(uint64(b) & lowmask(tzb(uint64(w))))
+//@     exit #count c == min(nplus(n), pc(uint64(b))) && cursor == pos + c
+//@     exit #members(count,range) forall k int :: 0 <= k && k < c ==> member(b, uint64(s[pos+k]-add)) && rank(b, uint64(s[pos+k]-add)) == k
+//
+//@ func Bit64.IterAsI16
+//@   requires 0 <= pos && pos <= len(s) && min(nplus(n), pc(uint64(b))) <= len(s) - pos
+//@   ensures #count result == min(nplus(n), pc(uint64(b)))
+//@   ensures #members(count,range) forall k int :: 0 <= k && k < result ==> member(b, uint64(s[pos+k]-add)) && rank(b, uint64(s[pos+k]-add)) == k
+//@   modifies s[pos : pos+min(nplus(n), pc(uint64(b)))]
+//@   loop 1
+//@     invariant #range 0 <= i && i <= 64 && uint64(w) == uint64(b) & ^lowmask(uint64(i)) && l == pc(uint64(b))
+//@     invariant #count c == rank(b, uint64(i)) && cursor == pos + c && 0 <= c && c <= nplus(n)
+//@     invariant #members(count,range) forall k int :: 0 <= k && k < c ==> member(b, uint64(s[pos+k]-add)) && rank(b, uint64(s[pos+k]-add)) == k
+//@     use [range,count] pc_add(uint64(b) & lowmask(uint64(i)), uint64(i)), pc_split(uint64(b), uint64(i)), pc_split(uint64(b), uint64(i)+1), pc_zero(uint64(b) & ^lowmask(uint64(i))), pc_zero(uint64(b) & ^lowmask(uint64(i)+1)), pc_zero(uint64(b) & lowmask(uint64(i)))
+//@     exit #count c == min(nplus(n), pc(uint64(b))) && cursor == pos + c
+//@     exit #members(count,range) forall k int :: 0 <= k && k < c ==> member(b, uint64(s[pos+k]-add)) && rank(b, uint64(s[pos+k]-add)) == k
+//@   loop 2
+//@     invariant #range uint64(w) == uint64(b) & ^lowmask(tzb(uint64(w))) && l == pc(uint64(b))
+//@     invariant #count c == rank(b, tzb(uint64(w))) && cursor == pos + c && 0 <= c && c <= nplus(n)
+//@     invariant #members(count,range) forall k int :: 0 <= k && k < c ==> member(b, uint64(s[pos+k]-add)) && rank(b, uint64(s[pos+k]-add)) == k
+//@     use [range,count] tz_def(uint64(w)), tz_def(uint64(w) & ^(uint64(1) << tzb(uint64(w)))), pc_add(uint64(b) & lowmask(tzb(uint64(w))), tzb(uint64(w))), pc_split(uint64(b), tzb(uint64(w))), pc_zero(uint64(w)), pc_zero(uint64(b) & lowmask(tzb(uint64(w))))
+//@     exit #count c == min(nplus(n), pc(uint64(b))) && cursor == pos + c
+//@     exit #members(count,range) forall k int :: 0 <= k && k < c ==> member(b, uint64(s[pos+k]-add)) && rank(b, uint64(s[pos+k]-add)) == k
+//
+//@ func Bit64.IterAsI8
+//@   requires 0 <= pos && pos <= len(s) && min(nplus(n), pc(uint64(b))) <= len(s) - pos
+//@   ensures #count result == min(nplus(n), pc(uint64(b)))
+//@   ensures #members(count,range) forall k int :: 0 <= k && k < result ==> member(b, uint64(s[pos+k]-add)) && rank(b, uint64(s[pos+k]-add)) == k
+//@   modifies s[pos : pos+min(nplus(n), pc(uint64(b)))]
+//@   loop 1
+//@     invariant #range 0 <= i && i <= 64 && uint64(w) == uint64(b) & ^lowmask(uint64(i)) && l == pc(uint64(b))
+//@     invariant #count c == rank(b, uint64(i)) && cursor == pos + c && 0 <= c && c <= nplus(n)
+//@     invariant #members(count,range) forall k int :: 0 <= k && k < c ==> member(b, uint64(s[pos+k]-add)) && rank(b, uint64(s[pos+k]-add)) == k
+//@     use [range,count] pc_add(uint64(b) & lowmask(uint64(i)), uint64(i)), pc_split(uint64(b), uint64(i)), pc_split(uint64(b), uint64(i)+1), pc_zero(uint64(b) & ^lowmask(uint64(i))), pc_zero(uint64(b) & ^lowmask(uint64(i)+1)), pc_zero(uint64(b) & lowmask(uint64(i)))
+//@     exit #count c == min(nplus(n), pc(uint64(b))) && cursor == pos + c
+//@     exit #members(count,range) forall k int :: 0 <= k && k < c ==> member(b, uint64(s[pos+k]-add)) && rank(b, uint64(s[pos+k]-add)) == k
+//@   loop 2
+//@     invariant #range uint64(w) == uint64(b) & ^lowmask(tzb(uint64(w))) && l == pc(uint64(b))
+//@     invariant #count c == rank(b, tzb(uint64(w))) && cursor == pos + c && 0 <= c && c <= nplus(n)
+//@     invariant #members(count,range) forall k int :: 0 <= k && k < c ==> member(b, uint64(s[pos+k]-add)) && rank(b, uint64(s[pos+k]-add)) == k
+//@     use [range,count] tz_def(uint64(w)), tz_def(uint64(w) & ^(uint64(1) << tzb(uint64(w)))), pc_add(uint64(b) & lowmask(tzb(uint64(w))), tzb(uint64(w))), pc_split(uint64(b), tzb(uint64(w))), pc_zero(uint64(w)), pc_zero(uint64(b) & lowmask(tzb(uint64(w))))
+//@     exit #count c == min(nplus(n), pc(uint64(b))) && cursor == pos + c
+//@     exit #members(count,range) forall k int :: 0 <= k && k < c ==> member(b, uint64(s[pos+k]-add)) && rank(b, uint64(s[pos+k]-add)) == k
+//
+//@ func Bit64.RIterAsI64
+//@   requires 0 <= pos && pos <= len(s) && min(nplus(n), pc(uint64(b))) <= len(s) - pos
+//@   ensures #count result == min(nplus(n), pc(uint64(b)))
+//@   ensures #members(count,range) forall k int :: 0 <= k && k < result ==> member(b, uint64(s[pos+k]-add)) && rrank(b, uint64(s[pos+k]-add)) == k
+//@   modifies s[pos : pos+min(nplus(n), pc(uint64(b)))]
+//@   loop 1
+//@     invariant #range -1 <= i && i <= 63 && uint64(w) == uint64(b) & lowmask(uint64(i)+1) && uint64(w) != 0 && l == pc(uint64(b))
+//@     invariant #count c == rrank(b, uint64(i)) && cursor == pos + c && 0 <= c && c <= nplus(n)
+//@     invariant #members(count,range) forall k int :: 0 <= k && k < c ==> member(b, uint64(s[pos+k]-add)) && rrank(b, uint64(s[pos+k]-add)) == k
+//@     use [range,count] pc_add(uint64(b) & ^lowmask(uint64(i)+1), uint64(i)), pc_split(uint64(b), uint64(i)+1), pc_split(uint64(b), uint64(i)), pc_zero(uint64(b) & lowmask(uint64(i)+1)), pc_zero(uint64(b) & lowmask(uint64(i))), pc_zero(uint64(b) & ^lowmask(uint64(i)+1))
+//@     exit #count c == min(nplus(n), pc(uint64(b))) && cursor == pos + c
+//@     exit #members(count,range) forall k int :: 0 <= k && k < c ==> member(b, uint64(s[pos+k]-add)) && rrank(b, uint64(s[pos+k]-add)) == k
+//@   loop 2
+//@     invariant #range uint64(w) == uint64(b) & lowmask(blb(uint64(w))) && l == pc(uint64(b))
+//@     invariant #count c == pc(uint64(b) & ^lowmask(blb(uint64(w)))) && cursor == pos + c && 0 <= c && c <= nplus(n)
+//@     invariant #members(count,range) forall k int :: 0 <= k && k < c ==> member(b, uint64(s[pos+k]-add)) && rrank(b, uint64(s[pos+k]-add)) == k
+//@     use [range,count] bl_def(uint64(w)), bl_def(uint64(w) & ^(uint64(1) << (blb(uint64(w))-1))), pc_add(uint64(b) & ^lowmask(blb(uint64(w))), blb(uint64(w))-1), pc_split(uint64(b), blb(uint64(w))), pc_zero(uint64(w)), pc_zero(uint64(b) & ^lowmask(blb(uint64(w))))
+//@     exit #count c == min(nplus(n), pc(uint64(b))) && cursor == pos + c
+//@     exit #members(count,range) forall k int :: 0 <= k && k < c ==> member(b, uint64(s[pos+k]-add)) && rrank(b, uint64(s[pos+k]-add)) == k
+//
+//@ func Bit64.RIterAsI32
+//@   requires 0 <= pos && pos <= len(s) && min(nplus(n), pc(uint64(b))) <= len(s) - pos
+//@   ensures #count result == min(nplus(n), pc(uint64(b)))
+//@   ensures #members(count,range) forall k int :: 0 <= k && k < result ==> member(b, uint64(s[pos+k]-add)) && rrank(b, uint64(s[pos+k]-add)) == k
+//@   modifies s[pos : pos+min(nplus(n), pc(uint64(b)))]
+//@   loop 1
+//@     invariant #range -1 <= i && i <= 63 && uint64(w) == uint64(b) & lowmask(uint64(i)+1) && uint64(w) != 0 && l == pc(uint64(b))
+//@     invariant #count c == rrank(b, uint64(i)) && cursor == pos + c && 0 <= c && c <= nplus(n)
+//@     invariant #members(count,range) forall k int :: 0 <= k && k < c ==> member(b, uint64(s[pos+k]-add)) && rrank(b, uint64(s[pos+k]-add)) == k
+//@     use [range,count] pc_add(uint64(b) & ^lowmask(uint64(i)+1), uint64(i)), pc_split(uint64(b), uint64(i)+1), pc_split(uint64(b), uint64(i)), pc_zero(uint64(b) & lowmask(uint64(i)+1)), pc_zero(uint64(b) & lowmask(uint64(i))), pc_zero(uint64(b) & ^lowmask(uint64(i)+1))
+//@     exit #count c == min(nplus(n), pc(uint64(b))) && cursor == pos + c
+//@     exit #members(count,range) forall k int :: 0 <= k && k < c ==> member(b, uint64(s[pos+k]-add)) && rrank(b, uint64(s[pos+k]-add)) == k
+//@   loop 2
+//@     invariant #range uint64(w) == uint64(b) & lowmask(blb(uint64(w))) && l == pc(uint64(b))
+//@     invariant #count c == pc(uint64(b) & ^lowmask(blb(uint64(w)))) && cursor == pos + c && 0 <= c && c <= nplus(n)
+//@     invariant #members(count,range) forall k int :: 0 <= k && k < c ==> member(b, uint64(s[pos+k]-add)) && rrank(b, uint64(s[pos+k]-add)) == k
+//@     use [range,count] bl_def(uint64(w)), bl_def(uint64(w) & ^(uint64(1) << (blb(uint64(w))-1))), pc_add(uint64(b) & ^lowmask(blb(uint64(w))), blb(uint64(w))-1), pc_split(uint64(b), blb(uint64(w))), pc_zero(uint64(w)), pc_zero(uint64(b) & ^lowmask(blb(uint64(w))))
+//@     exit #count c == min(nplus(n), pc(uint64(b))) && cursor == pos + c
+//@     exit #members(count,range) forall k int :: 0 <= k && k < c ==> member(b, uint64(s[pos+k]-add)) && rrank(b, uint64(s[pos+k]-add)) == k
+//
+//@ func Bit64.RIterAsU32
+//@   requires 0 <= pos && pos <= len(s) && min(nplus(n), pc(uint64(b))) <= len(s) - pos
+//@   ensures #count result == min(nplus(n), pc(uint64(b)))
+//@   ensures #members(count,range) forall k int :: 0 <= k && k < result ==> member(b, uint64(s[pos+k]-add)) && rrank(b, uint64(s[pos+k]-add)) == k
+//@   modifies s[pos : pos+min(nplus(n), pc(uint64(b)))]
+//@   loop 1
+//@     invariant #range -1 <= i && i <= 63 && uint64(w) == uint64(b) & lowmask(uint64(i)+1) && uint64(w) != 0 && l == pc(uint64(b))
+//@     invariant #count c == rrank(b, uint64(i)) && cursor == pos + c && 0 <= c && c <= nplus(n)
+//@     invariant #members(count,range) forall k int :: 0 <= k && k < c ==> member(b, uint64(s[pos+k]-add)) && rrank(b, uint64(s[pos+k]-add)) == k
+//@     use [range,count] pc_add(uint64(b) & ^lowmask(uint64(i)+1), uint64(i)), pc_split(uint64(b), uint64(i)+1), pc_split(uint64(b), uint64(i)), pc_zero(uint64(b) & lowmask(uint64(i)+1)), pc_zero(uint64(b) & lowmask(uint64(i))), pc_zero(uint64(b) & ^lowmask(uint64(i)+1))
+//@     exit #count c == min(nplus(n), pc(uint64(b))) && cursor == pos + c
+//@     exit #members(count,range) forall k int :: 0 <= k && k < c ==> member(b, uint64(s[pos+k]-add)) && rrank(b, uint64(s[pos+k]-add)) == k
+//@   loop 2
+//@     invariant #range uint64(w) == uint64(b) & lowmask(blb(uint64(w))) && l == pc(uint64(b))
+//@     invariant #count c == pc(uint64(b) & ^lowmask(blb(uint64(w)))) && cursor == pos + c && 0 <= c && c <= nplus(n)
+//@     invariant #members(count,range) forall k int :: 0 <= k && k < c ==> member(b, uint64(s[pos+k]-add)) && rrank(b, uint64(s[pos+k]-add)) == k
+//@     use [range,count] bl_def(uint64(w)), bl_def(uint64(w) & ^(uint64(1) << (blb(uint64(w))-1))), pc_add(uint64(b) & ^lowmask(blb(uint64(w))), blb(uint64(w))-1), pc_split(uint64(b), blb(uint64(w))), pc_zero(uint64(w)), pc_zero(uint64(b) & ^lowmask(blb(uint64(w))))
+//@     exit #count c == min(nplus(n), pc(uint64(b))) && cursor == pos + c
+//@     exit #members(count,range) forall k int :: 0 <= k && k < c ==> member(b, uint64(s[pos+k]-add)) && rrank(b, uint64(s[pos+k]-add)) == k
+//
+//@ func Bit64.RIterAsI16
+//@   requires 0 <= pos && pos <= len(s) && min(nplus(n), pc(uint64(b))) <= len(s) - pos
+//@   ensures #count result == min(nplus(n), pc(uint64(b)))
+//@   ensures #members(count,range) forall k int :: 0 <= k && k < result ==> member(b, uint64(s[pos+k]-add)) && rrank(b, uint64(s[pos+k]-add)) == k
+//@   modifies s[pos : pos+min(nplus(n), pc(uint64(b)))]
+//@   loop 1
+//@     invariant #range -1 <= i && i <= 63 && uint64(w) == uint64(b) & lowmask(uint64(i)+1) && uint64(w) != 0 && l == pc(uint64(b))
+//@     invariant #count c == rrank(b, uint64(i)) && cursor == pos + c && 0 <= c && c <= nplus(n)
+//@     invariant #members(count,range) forall k int :: 0 <= k && k < c ==> member(b, uint64(s[pos+k]-add)) && rrank(b, uint64(s[pos+k]-add)) == k
+//@     use [range,count] pc_add(uint64(b) & ^lowmask(uint64(i)+1), uint64(i)), pc_split(uint64(b), uint64(i)+1), pc_split(uint64(b), uint64(i)), pc_zero(uint64(b) & lowmask(uint64(i)+1)), pc_zero(uint64(b) & lowmask(uint64(i))), pc_zero(uint64(b) & ^lowmask(uint64(i)+1))
+//@     exit #count c == min(nplus(n), pc(uint64(b))) && cursor == pos + c
+//@     exit #members(count,range) forall k int :: 0 <= k && k < c ==> member(b, uint64(s[pos+k]-add)) && rrank(b, uint64(s[pos+k]-add)) == k
+//@   loop 2
+//@     invariant #range uint64(w) == uint64(b) & lowmask(blb(uint64(w))) && l == pc(uint64(b))
+//@     invariant #count c == pc(uint64(b) & ^lowmask(blb(uint64(w)))) && cursor == pos + c && 0 <= c && c <= nplus(n)
+//@     invariant #members(count,range) forall k int :: 0 <= k && k < c ==> member(b, uint64(s[pos+k]-add)) && rrank(b, uint64(s[pos+k]-add)) == k
+//@     use [range,count] bl_def(uint64(w)), bl_def(uint64(w) & ^(uint64(1) << (blb(uint64(w))-1))), pc_add(uint64(b) & ^lowmask(blb(uint64(w))), blb(uint64(w))-1), pc_split(uint64(b), blb(uint64(w))), pc_zero(uint64(w)), pc_zero(uint64(b) & ^lowmask(blb(uint64(w))))
+//@     exit #count c == min(nplus(n), pc(uint64(b))) && cursor == pos + c
+//@     exit #members(count,range) forall k int :: 0 <= k && k < c ==> member(b, uint64(s[pos+k]-add)) && rrank(b, uint64(s[pos+k]-add)) == k
+//
+//@ func Bit64.RIterAsI8
+//@   requires 0 <= pos && pos <= len(s) && min(nplus(n), pc(uint64(b))) <= len(s) - pos
+//@   ensures #count result == min(nplus(n), pc(uint64(b)))
+//@   ensures #members(count,range) forall k int :: 0 <= k && k < result ==> member(b, uint64(s[pos+k]-add)) && rrank(b, uint64(s[pos+k]-add)) == k
+//@   modifies s[pos : pos+min(nplus(n), pc(uint64(b)))]
+//@   loop 1
+//@     invariant #range -1 <= i && i <= 63 && uint64(w) == uint64(b) & lowmask(uint64(i)+1) && uint64(w) != 0 && l == pc(uint64(b))
+//@     invariant #count c == rrank(b, uint64(i)) && cursor == pos + c && 0 <= c && c <= nplus(n)
+//@     invariant #members(count,range) forall k int :: 0 <= k && k < c ==> member(b, uint64(s[pos+k]-add)) && rrank(b, uint64(s[pos+k]-add)) == k
+//@     use [range,count] pc_add(uint64(b) & ^lowmask(uint64(i)+1), uint64(i)), pc_split(uint64(b), uint64(i)+1), pc_split(uint64(b), uint64(i)), pc_zero(uint64(b) & lowmask(uint64(i)+1)), pc_zero(uint64(b) & lowmask(uint64(i))), pc_zero(uint64(b) & ^lowmask(uint64(i)+1))
+//@     exit #count c == min(nplus(n), pc(uint64(b))) && cursor == pos + c
+//@     exit #members(count,range) forall k int :: 0 <= k && k < c ==> member(b, uint64(s[pos+k]-add)) && rrank(b, uint64(s[pos+k]-add)) == k
+//@   loop 2
+//@     invariant #range uint64(w) == uint64(b) & lowmask(blb(uint64(w))) && l == pc(uint64(b))
+//@     invariant #count c == pc(uint64(b) & ^lowmask(blb(uint64(w)))) && cursor == pos + c && 0 <= c && c <= nplus(n)
+//@     invariant #members(count,range) forall k int :: 0 <= k && k < c ==> member(b, uint64(s[pos+k]-add)) && rrank(b, uint64(s[pos+k]-add)) == k
+//@     use [range,count] bl_def(uint64(w)), bl_def(uint64(w) & ^(uint64(1) << (blb(uint64(w))-1))), pc_add(uint64(b) & ^lowmask(blb(uint64(w))), blb(uint64(w))-1), pc_split(uint64(b), blb(uint64(w))), pc_zero(uint64(w)), pc_zero(uint64(b) & ^lowmask(blb(uint64(w))))
+//@     exit #count c == min(nplus(n), pc(uint64(b))) && cursor == pos + c
+//@     exit #members(count,range) forall k int :: 0 <= k && k < c ==> member(b, uint64(s[pos+k]-add)) && rrank(b, uint64(s[pos+k]-add)) == k
+//
+//@ func Bit64.getNAsI64
+//@   requires n >= 0
+//@   ensures #count len(result) == min(n, pc(uint64(b))) && (len(result) == 0 ==> result == nil)
+//@   ensures #fwd !reverse ==> forall k int :: 0 <= k && k < len(result) ==> member(b, uint64(result[k])) && rank(b, uint64(result[k])) == k
+//@   ensures #rev reverse ==> forall k int :: 0 <= k && k < len(result) ==> member(b, uint64(result[k])) && rrank(b, uint64(result[k])) == k
+//@   ensures #fresh len(result) > 0 ==> isfresh(result)
+//@   modifies
+//
+//@ func Bit64.GetNAsI64
+//@   requires n >= 0
+//@   ensures #count len(result) == min(n, pc(uint64(b))) && (len(result) == 0 ==> result == nil)
+//@   ensures #members forall k int :: 0 <= k && k < len(result) ==> member(b, uint64(result[k])) && rank(b, uint64(result[k])) == k
+//@   ensures #fresh len(result) > 0 ==> isfresh(result)
+//@   modifies
+//
+//@ func Bit64.RGetNAsI64
+//@   requires n >= 0
+//@   ensures #count len(result) == min(n, pc(uint64(b))) && (len(result) == 0 ==> result == nil)
+//@   ensures #members forall k int :: 0 <= k && k < len(result) ==> member(b, uint64(result[k])) && rrank(b, uint64(result[k])) == k
+//@   ensures #fresh len(result) > 0 ==> isfresh(result)
+//@   modifies
+//
+//@ func Bit64.getNAsI32
+//@   requires n >= 0
+//@   ensures #count len(result) == min(n, pc(uint64(b))) && (len(result) == 0 ==> result == nil)
+//@   ensures #fwd !reverse ==> forall k int :: 0 <= k && k < len(result) ==> member(b, uint64(result[k])) && rank(b, uint64(result[k])) == k
+//@   ensures #rev reverse ==> forall k int :: 0 <= k && k < len(result) ==> member(b, uint64(result[k])) && rrank(b, uint64(result[k])) == k
+//@   ensures #fresh len(result) > 0 ==> isfresh(result)
+//@   modifies
+//
+//@ func Bit64.GetNAsI32
+//@   requires n >= 0
+//@   ensures #count len(result) == min(n, pc(uint64(b))) && (len(result) == 0 ==> result == nil)
+//@   ensures #members forall k int :: 0 <= k && k < len(result) ==> member(b, uint64(result[k])) && rank(b, uint64(result[k])) == k
+//@   ensures #fresh len(result) > 0 ==> isfresh(result)
+//@   modifies
+//
+//@ func Bit64.RGetNAsI32
+//@   requires n >= 0
+//@   ensures #count len(result) == min(n, pc(uint64(b))) && (len(result) == 0 ==> result == nil)
+//@   ensures #members forall k int :: 0 <= k && k < len(result) ==> member(b, uint64(result[k])) && rrank(b, uint64(result[k])) == k
+//@   ensures #fresh len(result) > 0 ==> isfresh(result)
+//@   modifies
+//
+//@ func Bit64.getNAsI16
+//@   requires n >= 0
+//@   ensures #count len(result) == min(n, pc(uint64(b))) && (len(result) == 0 ==> result == nil)
+//@   ensures #fwd !reverse ==> forall k int :: 0 <= k && k < len(result) ==> member(b, uint64(result[k])) && rank(b, uint64(result[k])) == k
+//@   ensures #rev reverse ==> forall k int :: 0 <= k && k < len(result) ==> member(b, uint64(result[k])) && rrank(b, uint64(result[k])) == k
+//@   ensures #fresh len(result) > 0 ==> isfresh(result)
+//@   modifies
+//
+//@ func Bit64.GetNAsI16
+//@   requires n >= 0
+//@   ensures #count len(result) == min(n, pc(uint64(b))) && (len(result) == 0 ==> result == nil)
+//@   ensures #members forall k int :: 0 <= k && k < len(result) ==> member(b, uint64(result[k])) && rank(b, uint64(result[k])) == k
+//@   ensures #fresh len(result) > 0 ==> isfresh(result)
+//@   modifies
+//
+//@ func Bit64.RGetNAsI16
+//@   requires n >= 0
+//@   ensures #count len(result) == min(n, pc(uint64(b))) && (len(result) == 0 ==> result == nil)
+//@   ensures #members forall k int :: 0 <= k && k < len(result) ==> member(b, uint64(result[k])) && rrank(b, uint64(result[k])) == k
+//@   ensures #fresh len(result) > 0 ==> isfresh(result)
+//@   modifies
+//
+//@ func Bit64.getNAsI8
+//@   requires n >= 0
+//@   ensures #count len(result) == min(n, pc(uint64(b))) && (len(result) == 0 ==> result == nil)
+//@   ensures #fwd !reverse ==> forall k int :: 0 <= k && k < len(result) ==> member(b, uint64(result[k])) && rank(b, uint64(result[k])) == k
+//@   ensures #rev reverse ==> forall k int :: 0 <= k && k < len(result) ==> member(b, uint64(result[k])) && rrank(b, uint64(result[k])) == k
+//@   ensures #fresh len(result) > 0 ==> isfresh(result)
+//@   modifies
+//
+//@ func Bit64.GetNAsI8
+//@   requires n >= 0
+//@   ensures #count len(result) == min(n, pc(uint64(b))) && (len(result) == 0 ==> result == nil)
+//@   ensures #members forall k int :: 0 <= k && k < len(result) ==> member(b, uint64(result[k])) && rank(b, uint64(result[k])) == k
+//@   ensures #fresh len(result) > 0 ==> isfresh(result)
+//@   modifies
+//
+//@ func Bit64.RGetNAsI8
+//@   requires n >= 0
+//@   ensures #count len(result) == min(n, pc(uint64(b))) && (len(result) == 0 ==> result == nil)
+//@   ensures #members forall k int :: 0 <= k && k < len(result) ==> member(b, uint64(result[k])) && rrank(b, uint64(result[k])) == k
+//@   ensures #fresh len(result) > 0 ==> isfresh(result)
+//@   modifies
+//
+
+// GENERATED END
